@@ -124,17 +124,20 @@ func ruleGChg(c *Ctx) {
 		leFees, leDust, limit := "", "", false
 		for _, pc := range d.Conds {
 			s := atomName(pc.Cond)
+			// comparisons in canonical form ("==" / "<"), so that x != nil and !(x == nil) read alike
+			ca, flip := canonAtom(s)
+			ct := pc.Truth != flip
 			switch {
-			case s == "("+IN+" < "+OUT+")":
-				insufficient = fmt.Sprint(pc.Truth)
-			case s == "(p2 != nil)":
-				hasOut = pc.Truth
+			case ca == "("+IN+" < "+OUT+")":
+				insufficient = fmt.Sprint(ct)
+			case ca == "(p2 == nil)":
+				hasOut = !ct
 			case s == "p2.newOutput":
 				newOut = pc.Truth
-			case s == "(p2.lockingScript != nil)":
-				scriptNil = fmt.Sprint(!pc.Truth)
-			case strings.Contains(s, "UpperLimitInc") && strings.HasSuffix(s, "== -1)"):
-				limit = pc.Truth
+			case ca == "(p2.lockingScript == nil)":
+				scriptNil = fmt.Sprint(ct)
+			case strings.Contains(ca, "UpperLimitInc") && strings.HasSuffix(ca, "== -1)"):
+				limit = ct
 			default:
 				a, b, ok := binOf(pc.Cond, token.LEQ)
 				if !ok {
@@ -319,7 +322,7 @@ func ruleSChgWrappers(c *Ctx) {
 			}
 			chg := "(*bt.Tx).change(p0, p2, nil)"
 			want := setOf(
-				"[IDX -N +1 > 0]; return ErrOutputNoExist",
+				"[IDX -N >= 0]; return ErrOutputNoExist",
 				"[-IDX +N -1 >= 0]; change(p2, nil); return err",
 				"[-IDX +N -1 >= 0]; change(p2, nil); hasChange=false; return nil",
 				"[-IDX +N -1 >= 0]; change(p2, nil); &p0.Outputs[p1].Satoshis := ("+chg+"#0 + p0.Outputs[p1].Satoshis); hasChange=true; return nil",
